@@ -1331,6 +1331,9 @@ func (e *bEngine) applyIfaceContract(st *bState, con *Contract, key string, m *t
 		}
 		tuple = append(tuple, v)
 		b2[fmt.Sprintf("result%d", i)] = v
+		if n := sig.Results().At(i).Name(); n != "" {
+			b2[n] = v
+		}
 	}
 	if len(tuple) == 1 {
 		res = tuple[0]
